@@ -88,6 +88,15 @@ type vqUniverse struct {
 	// that the proof of work still holds
 	siblings [][6]wire.BlockHeader
 
+	// fut[h] (h >= 1): an alternative block at height h, child of blocks[h-1],
+	// internally valid, whose header is dated far more than two hours ahead
+	// of any clock this check will ever run on (BlockQuery target class "the
+	// stored header is future-dated"); futSib[h][f] as siblings.
+	fut     []*wire.MsgBlock
+	futHash []chainhash.Hash
+	futSib  [][6]wire.BlockHeader
+	fstores map[int]*vqStores
+
 	foreign      *wire.MsgBlock // a valid block that is in no store
 	foreignHash  chainhash.Hash
 	foreignBytes []byte
@@ -397,7 +406,113 @@ func vqNewUniverse(seed int64, dir string) (*vqUniverse, error) {
 			}
 		}
 	}
+	if err := u.addFutureBlocks(seed); err != nil {
+		return nil, err
+	}
 	return u, nil
+}
+
+// vqFutureTime is the timestamp of the future-dated headers: a fixed date
+// (so that a saved replay meets the same blocks) decades ahead of the clock.
+var vqFutureTime = time.Date(2100, 1, 1, 0, 0, 0, 0, time.UTC)
+
+// vqClock is a blockchain.MedianTimeSource that reads a fixed time: the clock
+// of the node on which a future-dated header was within the two-hour limit.
+type vqClock struct{ t time.Time }
+
+func (c vqClock) AdjustedTime() time.Time { return c.t }
+func (c vqClock) AddTimeSample(string, time.Time) {}
+func (c vqClock) Offset() time.Duration { return 0 }
+
+// addFutureBlocks generates, with a random stream of its own (the blocks of
+// the main chain stay what they were), one future-dated alternative block per
+// height.  The generator is not trusted: each block must pass the harness'
+// own three checks, must pass btcd's CheckBlockSanity + ValidateWitnessCommitment
+// on a clock that is not behind the header, and must fail CheckBlockSanity on
+// the real clock with exactly ErrTimeTooNew.
+func (u *vqUniverse) addFutureBlocks(seed int64) error {
+	g := &vqGen{r: rand.New(rand.NewSource(seed ^ 0x6675747572650a))}
+	u.fstores = map[int]*vqStores{}
+	u.fut = make([]*wire.MsgBlock, vqChainLen)
+	u.futHash = make([]chainhash.Hash, vqChainLen)
+	u.futSib = make([][6]wire.BlockHeader, vqChainLen)
+	for h := 1; h < vqChainLen; h++ {
+		var blk *wire.MsgBlock
+		for {
+			blk, _ = g.block(&u.params, u.hashes[h-1], h, vqFutureTime.Add(time.Duration(h)*10*time.Minute))
+			if _, clash := u.byHash[blk.BlockHash()]; !clash {
+				break
+			}
+		}
+		hash := blk.BlockHash()
+		if !vqBlockOK(blk, hash) {
+			return fmt.Errorf("future-dated block %d fails the harness' own checks", h)
+		}
+		ub := btcutil.NewBlock(blk.Copy())
+		if err := blockchain.CheckBlockSanity(ub, u.params.PowLimit, vqClock{blk.Header.Timestamp}); err != nil {
+			return fmt.Errorf("future-dated block %d on a clock at its own time: %v", h, err)
+		}
+		if err := blockchain.ValidateWitnessCommitment(ub); err != nil {
+			return fmt.Errorf("future-dated block %d: %v", h, err)
+		}
+		err := blockchain.CheckBlockSanity(btcutil.NewBlock(blk.Copy()), u.params.PowLimit, blockchain.NewMedianTime())
+		var re blockchain.RuleError
+		if !errors.As(err, &re) || re.ErrorCode != blockchain.ErrTimeTooNew {
+			return fmt.Errorf("future-dated block %d on the real clock: want ErrTimeTooNew, got %v", h, err)
+		}
+		u.fut[h], u.futHash[h] = blk, hash
+		for f := range u.futSib[h] {
+			u.futSib[h][f] = vqSibling(blk.Header, f, u.params.PowLimit)
+		}
+	}
+	return nil
+}
+
+// storesForFut opens (creating on first use) real header stores holding
+// blocks 0..btip-1 of the chain and, at height btip, the future-dated block
+// fut[btip] (headerfs stores whatever it is given; the block manager accepted
+// the header when its timestamp was within the limit of the clock of that
+// time).  Read-only afterwards, shared by all workers.
+func (u *vqUniverse) storesForFut(btip int) (*vqStores, error) {
+	if btip < 1 || btip >= vqChainLen {
+		return nil, fmt.Errorf("bad tip %d", btip)
+	}
+	u.mu.Lock()
+	s := u.fstores[btip]
+	if s == nil {
+		s = &vqStores{}
+		u.fstores[btip] = s
+	}
+	u.mu.Unlock()
+	s.once.Do(func() {
+		dir := filepath.Join(u.dir, fmt.Sprintf("stores-fut-%d", btip))
+		if s.err = os.MkdirAll(dir, 0o755); s.err != nil {
+			return
+		}
+		s.db, s.err = walletdb.Create("bdb", filepath.Join(dir, "neutrino.db"), true, 10*time.Second, false)
+		if s.err != nil {
+			return
+		}
+		sdb := &vqStrictDB{DB: s.db}
+		if s.b, s.err = headerfs.NewBlockHeaderStore(dir, sdb, &u.params); s.err != nil {
+			return
+		}
+		var bh []headerfs.BlockHeader
+		for i := 1; i < btip; i++ {
+			bh = append(bh, headerfs.BlockHeader{BlockHeader: &u.blocks[i].Header, Height: uint32(i)})
+		}
+		bh = append(bh, headerfs.BlockHeader{BlockHeader: &u.fut[btip].Header, Height: uint32(btip)})
+		if s.err = s.b.WriteHeaders(bh...); s.err != nil {
+			return
+		}
+		// what the store hands back for the future-dated hash is that header
+		hd, ht, err := s.b.FetchHeader(&u.futHash[btip])
+		if err != nil || ht != uint32(btip) || hd.BlockHash() != u.futHash[btip] ||
+			!hd.Timestamp.Equal(u.fut[btip].Header.Timestamp) {
+			s.err = fmt.Errorf("future-dated header not read back from the store (%v)", err)
+		}
+	})
+	return s, s.err
 }
 
 func (u *vqUniverse) idOf(h chainhash.Hash, btip int) int {
@@ -480,6 +595,11 @@ func (u *vqUniverse) storesFor(btip, ftip int) (*vqStores, error) {
 
 func (u *vqUniverse) closeStores() {
 	for _, s := range u.stores {
+		if s.db != nil {
+			s.db.Close()
+		}
+	}
+	for _, s := range u.fstores {
 		if s.db != nil {
 			s.db.Close()
 		}
@@ -1842,6 +1962,7 @@ type bqObs struct {
 	Ret    int   `json:"ret"`
 	Cache  []int `json:"cache"`
 	Cx     int   `json:"cx"`
+	Fut    []int `json:"fut"`
 	Banned []int `json:"banned"`
 }
 
@@ -1893,18 +2014,72 @@ type bqEnv struct {
 	quit1 sync.Once
 	vn     *int
 	lastVn int
+	// fut[b-1] = 1: the stored header of block b is future-dated (only the
+	// top block of the store can be: its children would have to build on it)
+	fut []int
+}
+
+// Model block ids -> concrete blocks of THIS path's store: 1..nb are the
+// stored blocks (the top one future-dated if the path says so), nb+1 (and
+// anything else) is a block the store does not know.
+func (e *bqEnv) isFut(b int) bool { return b >= 1 && b <= e.nb && e.fut[b-1] == 1 }
+
+func (e *bqEnv) blockOf(b int) *wire.MsgBlock {
+	if e.isFut(b) {
+		return e.u.fut[b]
+	}
+	return e.u.blockOf(b, e.nb)
+}
+
+func (e *bqEnv) hashOf(b int) chainhash.Hash {
+	if e.isFut(b) {
+		return e.u.futHash[b]
+	}
+	return e.u.hashOf(b, e.nb)
+}
+
+func (e *bqEnv) idOf(h chainhash.Hash) int {
+	for b := 1; b <= e.nb; b++ {
+		if e.hashOf(b) == h {
+			return b
+		}
+	}
+	if id := e.u.idOf(h, e.nb); id == 0 {
+		return 0
+	}
+	return -1
+}
+
+func (e *bqEnv) sibling(b, f int) wire.BlockHeader {
+	if e.isFut(b) {
+		return e.u.futSib[b][f]
+	}
+	return e.u.siblings[b][f]
 }
 
 func bqPeer(p int) string { return fmt.Sprintf("10.0.%d.%d:18444", p, p) }
 
 func newBqEnv(u *vqUniverse, w *vqWorker, init *bqObs, seed int64, pathID int) (*bqEnv, error) {
 	nb, np := len(init.Cache), len(init.Banned)
-	st, err := u.storesFor(nb, nb)
+	fut := vqFill(nb, 0)
+	copy(fut, init.Fut)
+	var st *vqStores
+	var err error
+	for b := 1; b <= nb; b++ {
+		if fut[b-1] != 0 && (fut[b-1] != 1 || b != nb) {
+			return nil, fmt.Errorf("future-dated block %d of %d: only the top block of the store can be", b, nb)
+		}
+	}
+	if nb >= 1 && fut[nb-1] == 1 {
+		st, err = u.storesForFut(nb)
+	} else {
+		st, err = u.storesFor(nb, nb)
+	}
 	if err != nil {
 		return nil, err
 	}
 	e := &bqEnv{u: u, st: st, w: w, nb: nb, np: np, sched: &vqSched{ev: make(chan vqEvent, 4)},
-		ret: vqRUN, rng: rand.New(rand.NewSource(seed)), done: make(chan struct{})}
+		ret: vqRUN, rng: rand.New(rand.NewSource(seed)), done: make(chan struct{}), fut: fut}
 	if w.ban == nil {
 		if w.ban, err = banman.NewStore(&vqStrictDB{DB: w.bandb}); err != nil {
 			return nil, err
@@ -2002,17 +2177,17 @@ func (e *bqEnv) classify(blk *btcutil.Block) int {
 		return vqG
 	}
 	m := blk.MsgBlock()
-	id := e.u.idOf(m.BlockHash(), e.nb)
-	if id < 1 || !vqBlockOK(m, e.u.hashes[id]) {
+	id := e.idOf(m.BlockHash())
+	if id < 1 || !vqBlockOK(m, e.hashOf(id)) {
 		return vqG
 	}
 	return id
 }
 
 func (e *bqEnv) observe() (bqObs, error) {
-	o := bqObs{Ret: e.ret, Cache: vqFill(e.nb, 0), Banned: vqFill(e.np, 0)}
+	o := bqObs{Ret: e.ret, Cache: vqFill(e.nb, 0), Banned: vqFill(e.np, 0), Fut: append([]int{}, e.fut...)}
 	e.cs.BlockCache.Range(func(k wire.InvVect, v *CacheableBlock) bool {
-		id := e.u.idOf(k.Hash, e.nb)
+		id := e.idOf(k.Hash)
 		if id < 1 || k.Type != wire.InvTypeWitnessBlock {
 			o.Cx++
 			return true
@@ -2057,7 +2232,7 @@ func (e *bqEnv) message(k string, b, tgt int) (wire.Message, string) {
 	}
 	e.lastVn = v
 	g := &vqGen{r: e.rng}
-	base := func() *wire.MsgBlock { return u.blockOf(tgt, e.nb).Copy() }
+	base := func() *wire.MsgBlock { return e.blockOf(tgt).Copy() }
 	switch k {
 	case "intact":
 		return base(), "intact"
@@ -2086,20 +2261,20 @@ func (e *bqEnv) message(k string, b, tgt int) (wire.Message, string) {
 			target := blockchain.CompactToBig(m.Header.Bits)
 			for {
 				h := m.Header.BlockHash()
-				if blockchain.HashToBig(&h).Cmp(target) <= 0 && u.idOf(h, vqChainLen) < 0 {
+				if blockchain.HashToBig(&h).Cmp(target) <= 0 && u.idOf(h, vqChainLen) < 0 && e.idOf(h) < 0 {
 					break
 				}
 				m.Header.Nonce++
 			}
 			return m, "other/same-txs-other-header"
 		}
-		return u.blockOf(b, e.nb).Copy(), fmt.Sprintf("other/block-%d", b)
+		return e.blockOf(b).Copy(), fmt.Sprintf("other/block-%d", b)
 	case "sibling":
 		// the requested block under a header that differs in one field only
 		m := base()
 		f := v % 6
 		if tgt >= 1 && tgt <= e.nb {
-			m.Header = u.siblings[tgt][f]
+			m.Header = e.sibling(tgt, f)
 		} else {
 			m.Header = vqSibling(m.Header, f, u.params.PowLimit)
 		}
@@ -2188,13 +2363,13 @@ func (e *bqEnv) message(k string, b, tgt int) (wire.Message, string) {
 	case "nonblock":
 		switch v % 4 {
 		case 0:
-			return u.blockOf(tgt, e.nb).Transactions[1].Copy(), "nonblock/tx"
+			return e.blockOf(tgt).Transactions[1].Copy(), "nonblock/tx"
 		case 1:
-			h := u.hashOf(tgt, e.nb)
+			h := e.hashOf(tgt)
 			return &wire.MsgCFilter{FilterType: wire.GCSFilterRegular, BlockHash: h, Data: u.fbytes[1]}, "nonblock/cfilter"
 		case 2:
 			mh := wire.NewMsgHeaders()
-			_ = mh.AddBlockHeader(&u.blockOf(tgt, e.nb).Header)
+			_ = mh.AddBlockHeader(&e.blockOf(tgt).Header)
 			return mh, "nonblock/headers"
 		}
 		return wire.NewMsgNotFound(), "nonblock/notfound"
@@ -2217,7 +2392,7 @@ func (e *bqEnv) exec(a bqAct) (bqAct, string, error) {
 		e.call = c
 		e.ret = vqRUN
 		e.last = nil
-		hash := e.u.hashOf(a.Tgt, e.nb)
+		hash := e.hashOf(a.Tgt)
 		if a.Tgt < 1 {
 			hash = e.u.foreignHash
 		}
@@ -2269,7 +2444,7 @@ func (e *bqEnv) exec(a bqAct) (bqAct, string, error) {
 		if len(c.reqs) != 1 {
 			out.Res = "err"
 		} else if gd, ok := c.reqs[0].Req.(*wire.MsgGetData); !ok || len(gd.InvList) != 1 ||
-			gd.InvList[0].Hash != e.u.hashOf(c.tgt, e.nb) {
+			gd.InvList[0].Hash != e.hashOf(c.tgt) {
 			out.Res = "err"
 		}
 	case "Resp":
@@ -2714,7 +2889,7 @@ func (e *bqEnv) runFree(f *vqFree) ([]bqStepOut, error) {
 		e.ret = vqRUN
 		submitted = false
 		net.arm(ci, call.Peers)
-		hash := e.u.hashOf(call.Tgt, e.nb)
+		hash := e.hashOf(call.Tgt)
 		var blk *btcutil.Block
 		var err error
 		var pv interface{}
